@@ -334,7 +334,8 @@ def run(res, rng, tier):
         if o.get('order') is not None and not o.get('viol'):
             terms.append((c, dict(order=o['order']), conc_term(o)))
     res.extra['concurrent'] = dict(cases=len(conc), rounds=sum(o.get('rounds', 0) for o in cobs),
-                                   overlapping_call_pairs_in_checked_histories=overl, linearization_search_states=lin_states)
+                                   overlapping_call_pairs_in_checked_histories=overl, linearization_search_states=lin_states,
+                                   rounds_explained_by_contract_only=sum(o.get('relaxed', 0) for o in cobs))
     core.log('c14: +conc %.1fs' % (time.time() - t0))
     # ---- 4. the Coq model on the same histories
     bad, err = core.coq_mismatches(HEADER, 'list Z', 'c14_agree_gen', [t[2] for t in terms], 'c14', shard=100)
